@@ -304,6 +304,11 @@ func main() {
 		spaces = append(spaces, space{5, reduced6, "reduced-6: " + symList(reduced6), false})
 	}
 
+	// the two dynamic-level families run on the depth<=4 spaces in the thorough tier, on the depth<=3 spaces in the quick tier
+	dynMaxDepth := 3
+	if run.Thorough() {
+		dynMaxDepth = 4
+	}
 	type item struct {
 		sp     int
 		lo, hi int64
@@ -360,6 +365,9 @@ func main() {
 				scheds[k], _ = schedByName(steps, sn)
 			}
 			for fam := 0; fam < nFam; fam++ {
+				if fam >= famJSONDyn && sp.depth > dynMaxDepth {
+					continue
+				}
 				for k, sn := range names {
 					sc := scheds[k]
 					c := caseDesc{fam: fam, rootSugared: sp.rootSugared, steps: steps, variant: sc.name, events: sc.events}
@@ -400,6 +408,7 @@ func main() {
 		symNames = append(symNames, s.name)
 	}
 	run.Assume = []string{
+		"dynamic-level families: one AtomicLevel under the json core / under both tee branches is set to FatalLevel+1 (nothing enabled) immediately before every derive event and to Debug immediately before every log event; the oracle is exactly that of the json / tee(json,observer) family",
 		"field arguments: With1 = one Int64; With3 = Int64,String,Int64; WithNS = Namespace + Int64; WithMut = Object(mutable marshaler) + Int64; keys are unique per step; names from {\"\",\"a\",\"b\"}; sugared With/WithLazy receive key/value pairs (the namespace as a typed Field)",
 		"every entry is logged at Info (enabled in every family); the sampler's budget (first=2^30 per tick) is never exhausted",
 		"evaluation time/count of marshalers is demanded only where every serialising core is a byte encoder (json, console, sampler, hooked, increase-level, lazy): With = once, at derivation; WithLazy = once, at the first log through the logger or a descendant or the first With/WithOptions(Fields) chained on it. The observer keeps the Field unevaluated: there only field identity (Field.Equals + same marshaler pointer) is compared; in tee(json,observer) the JSON branch's value is compared but not the call count",
@@ -412,13 +421,14 @@ func main() {
 		"traces_validated_against_impl":      cases,
 		"evaluations":                        cases,
 		"distinct_nontrivial":                nontrivial,
-		"rule":                               "a program = root kind + sequence of (parent index among nodes so far, symbol); every program of each listed space is run under 8 core families x the use orders; states = distinct reference node states (root kind + symbols along the derivation path, i.e. field path and name); distinct_nontrivial = distinct programs with >=2 steps of which >=1 adds context; evaluations = (program, family, use order) cases executed",
+		"rule":                               "a program = root kind + sequence of (parent index among nodes so far, symbol); every program of each listed space is run under the core families (8 static ones on every space, the 2 dynamic-level ones up to dynamic_level_families_up_to_depth) x the use orders; states = distinct reference node states (root kind + symbols along the derivation path, i.e. field path and name); distinct_nontrivial = distinct programs with >=2 steps of which >=1 adds context; evaluations = (program, family, use order) cases executed",
 		"samples":                            samples,
 		"exhaustive":                         true,
 		"programs":                           programs,
 		"spaces":                             spaceDesc,
 		"symbols_full":                       symNames,
 		"core_families":                      famNames[:],
+		"dynamic_level_families_up_to_depth": dynMaxDepth,
 		"derivation_steps_executed":          derives,
 		"log_calls_executed":                 logCalls,
 		"lines_equal_to_reference_rendering": fast,
